@@ -28,12 +28,9 @@ package requestf
 //@   allocates
 //@   ensures readBuf.buf.i >= p0
 //@   ensures validR(readBuf)
-//@   loop 0 invariant [C05] validR(readBuf) && readBuf.buf.i >= p0 && i0 >= 0 && len(st.SBuffer) == e0
-//@   loop 0 decreases e0 - i0
+//@   loop 0 invariant [C05] validR(readBuf) && readBuf.buf.i >= p0 && len(st.SBuffer) == length
 //@   loop 1 invariant [C05] validR(readBuf) && readBuf.buf.i >= p0 && st.Context != nil
-//@   loop 1 decreases e1 - i1
 //@   loop 2 invariant [C05] validR(readBuf) && readBuf.buf.i >= p0 && st.Status != nil
-//@   loop 2 decreases e2 - i2
 //@   safety [C05]
 //
 //@ func (*RequestPacket).ReadBlock
@@ -64,12 +61,9 @@ package requestf
 //@   allocates
 //@   ensures readBuf.buf.i >= p0
 //@   ensures validR(readBuf)
-//@   loop 0 invariant [C05] validR(readBuf) && readBuf.buf.i >= p0 && i0 >= 0 && len(st.SBuffer) == e0
-//@   loop 0 decreases e0 - i0
+//@   loop 0 invariant [C05] validR(readBuf) && readBuf.buf.i >= p0 && len(st.SBuffer) == length
 //@   loop 1 invariant [C05] validR(readBuf) && readBuf.buf.i >= p0 && st.Status != nil
-//@   loop 1 decreases e1 - i1
 //@   loop 2 invariant [C05] validR(readBuf) && readBuf.buf.i >= p0 && st.Context != nil
-//@   loop 2 decreases e2 - i2
 //@   safety [C05]
 //
 //@ func (*ResponsePacket).ReadBlock
